@@ -24,7 +24,7 @@ BOUNDS = {"quick": "[+ lock order: receiving thread + 1..2 senders x 1..2 stanza
                    "[+ senders (4 selections) in the window between a reported close and its event, then reconnect; login with edge routing info (3 values)] " 
                    "2 threads x 2 stanzas and 3 threads x 1 stanza (application via the top layer, keep-alive via the iq layer, second application thread, senders at the coder layer); all interleavings of the extracted events; "
                    "races: 2 senders x 1 stanza, every shared written container, <=5 access positions of one sender x first access of the other per operation; 3 kinds of refused send before 2 concurrent senders; a peer drop followed by senders before the new handshake; frames of 64 KiB..3 MiB",
-          "thorough": "up to 3 threads x 3 stanzas and 4 threads x 2 stanzas"}
+          "thorough": "up to 3 threads x 3 stanzas and 4 threads x 2 stanzas; lock order: receiver + 3 senders x 2 stanzas, receiver + 2 senders x 3 stanzas"}
 OUTSIDE = ["the handshake thread (C04, not applicable)", "received stanzas other than a server ping (the reply path of other handlers)", "locks outside yowsup.layers and the noise layer module (consonance, queue internals)", "atomicity below the traced events (single byte-code operations inside consonance/dissononce under the GIL)",
            "shared state other than list/dict/bytearray/set objects touched by yowsup's own code on the send path (attribute rebinding, state inside consonance/dissononce beyond nonce and queue)",
            "more threads / stanzas than the bound"]
@@ -1077,6 +1077,9 @@ def cases(tier):
           dict(name="lock-order[receiver+keepalive+app,1 stanza]", fn=h_lock_order, args=(("receiver", "keepalive", "app"), 1), timeout_s=900, weight=10),
           dict(name="threads[receiver+app,1 stanza]", fn=h_schedules, args=(("receiver", "app"), 1), timeout_s=900, weight=10)]
     if tier != "quick":
+        cs.append(dict(name="lock-order[receiver+keepalive+app+app2,2 stanzas]", fn=h_lock_order, args=(("receiver", "keepalive", "app", "app2"), 2), timeout_s=1800, weight=40))
+        cs.append(dict(name="lock-order[receiver+coder+app,3 stanzas]", fn=h_lock_order, args=(("receiver", "coder", "app"), 3), timeout_s=1800, weight=40))
+        cs.append(dict(name="threads[receiver+app+keepalive,2 stanzas]", fn=h_schedules, args=(("receiver", "app", "keepalive"), 2), timeout_s=3400, weight=100))
         cs.append(dict(name="races[coder+coder2,2 sends]", fn=h_races, args=(("coder", "coder2"), 2), timeout_s=1800, weight=40, keep_samples=128))
         cs.append(dict(name="races[coder+coder2+app,1 send]", fn=h_races, args=(("coder", "coder2", "app"), 1), timeout_s=1800, weight=40, keep_samples=128))
         cs.append(dict(name="races[app+keepalive+app2,1 send]", fn=h_races, args=(("app", "keepalive", "app2"), 1), timeout_s=1800, weight=40, keep_samples=128))
